@@ -121,3 +121,17 @@ package optracker
 //@   ensures op != nil ==> res.Status == opStatus(op.opType, op.phase) && res.Cid == op.pin.Cid && res.Peer == opt.pid
 //@   ensures op == nil ==> res.Status == api.TrackerStatusUnpinned && res.Cid == cid.Undef && res.Peer == opt.pid
 //@   modifies nothing
+
+// one report per operation of the table, each with the operation's own status
+//@ func (opt *OperationTracker) GetAll
+//@   property C06 C18
+//@   opts own
+//@   requires tableInv(opt)
+//@   ensures [one-report-per-operation] forall i int :: 0 <= i && i < len(res) ==> res[i] != nil && fresh(res[i]) && haskey(opt.operations, res[i].Cid) && res[i].Status == opStatus(opt.operations[res[i].Cid].opType, opt.operations[res[i].Cid].phase)
+//@   ensures [every-operation-reported] forall c cid.Cid :: haskey(opt.operations, c) ==> exists i int :: 0 <= i && i < len(res) && res[i].Cid == c
+//@   ensures [existing-reports-untouched] forall o *api.PinInfo :: !fresh(o) ==> *o == old(*o)
+//@   loop 1 (range opt.operations)
+//@     invariant forall o *api.PinInfo :: !fresh(o) ==> *o == old(*o)
+//@     invariant forall i int :: 0 <= i && i < len(pinfos) ==> pinfos[i] != nil && fresh(pinfos[i]) && in(pinfos[i].Cid, seen1) && pinfos[i].Status == opStatus(opt.operations[pinfos[i].Cid].opType, opt.operations[pinfos[i].Cid].phase)
+//@     invariant forall c cid.Cid :: in(c, seen1) ==> exists i int :: 0 <= i && i < len(pinfos) && pinfos[i].Cid == c
+//@   modifies heap(api.PinInfo)
